@@ -20,6 +20,9 @@ pub struct Ledger {
     pub callbacks: u64,
     /// C02: `Drop::drop` of a token counts as a callback (and may be the one that panics)
     pub drop_callbacks: bool,
+    /// zero-sized counted elements (`Zd`): created - dropped, and drops beyond creations
+    pub zst_live: i64,
+    pub zst_overdrops: u64,
 }
 
 /// one process-wide ledger (tokens may be created / dropped on worker threads)
@@ -42,6 +45,8 @@ pub struct Snapshot {
     pub live: usize,
     pub double_drops: usize,
     pub callbacks: u64,
+    pub zst_live: i64,
+    pub zst_overdrops: u64,
 }
 
 pub fn snapshot() -> Snapshot {
@@ -55,6 +60,8 @@ pub fn snapshot() -> Snapshot {
             live: l.live.len(),
             double_drops: l.double_drops.len(),
             callbacks: l.callbacks,
+            zst_live: l.zst_live,
+            zst_overdrops: l.zst_overdrops,
         }
     }
 }
@@ -207,6 +214,8 @@ pub trait Elem: Sized + Default + 'static {
     const ZST: bool;
     /// does `Clone::clone` mark the payload (so that clones are visible)?
     const MARKS_CLONES: bool = false;
+    /// are creations (make / default / clone) and drops of this type counted in the ledger?
+    const COUNTED: bool = false;
     const KIND: &'static str;
     fn make(payload: String) -> Self;
     fn show(&self) -> String;
@@ -216,6 +225,7 @@ pub trait Elem: Sized + Default + 'static {
 impl Elem for Tok {
     const ZST: bool = false;
     const MARKS_CLONES: bool = true;
+    const COUNTED: bool = true;
     const KIND: &'static str = "tok";
     fn make(payload: String) -> Self {
         Tok::new(payload)
@@ -286,6 +296,58 @@ impl Elem for Cm {
     fn make(p: String) -> Self { Cm { v: p.parse::<u64>().unwrap() as u32, generation: 0 } }
     fn show(&self) -> String { format!("{}{}", self.v, "'".repeat(self.generation as usize)) }
     fn dflt() -> Self { Cm { v: 0, generation: 0 } }
+}
+
+/// a ZERO-SIZED element type with drop glue, a counting `Default` and a counting `Clone`: it has no
+/// identity, so the ledger keeps counts only (creations by kind, drops, live = created - dropped)
+#[derive(Debug)]
+pub struct Zd;
+
+impl Zd {
+    pub fn new() -> Zd {
+        let mut l = ledger();
+        l.created += 1;
+        l.zst_live += 1;
+        Zd
+    }
+}
+
+impl Clone for Zd {
+    fn clone(&self) -> Zd {
+        let mut l = ledger();
+        l.cloned += 1;
+        l.zst_live += 1;
+        Zd
+    }
+}
+
+impl Default for Zd {
+    fn default() -> Zd {
+        let mut l = ledger();
+        l.defaults += 1;
+        l.zst_live += 1;
+        Zd
+    }
+}
+
+impl Drop for Zd {
+    fn drop(&mut self) {
+        let mut l = ledger();
+        l.dropped += 1;
+        l.zst_live -= 1;
+        if l.zst_live < 0 {
+            l.zst_overdrops += 1;
+        }
+    }
+}
+
+impl Elem for Zd {
+    const ZST: bool = true;
+    const COUNTED: bool = true;
+    const KIND: &'static str = "unit";
+    fn make(_: String) -> Self { Zd::new() }
+    fn show(&self) -> String { "u".to_string() }
+    fn dflt() -> Self { Zd::default() }
 }
 
 macro_rules! zst_elem {
